@@ -357,3 +357,21 @@ package mapping
 //@   call processField#*: assert arg_m == m && hv
 //@   loop 0: invariant 0 <= i && required == requiredFilled + missing && missing >= 0 && allok
 //@   ensures implies(result == nil && filled, missing == 0 && allok)
+
+// when an absent nested struct counts as required: as soon as one member is - a member under another key, a member without
+// options that is not itself an all-optional struct, a member that is neither optional nor defaulted, or one whose
+// optionality is conditional on the ABSENCE of another field (optional=!dep); a positive dependency (optional=dep) alone
+// does not make the struct required
+//@ func implicitValueRequiredStruct
+//@   property C08
+//@   results required, err
+//@   ghost at entry: why = 0
+//@   ghost at return#0: why = 1
+//@   ghost at return#2: why = 2
+//@   ghost at return#4: why = 3
+//@   ghost at return#5: why = 4
+//@   ghost at return#6: why = 5
+//@   loop 0: invariant 0 <= i && why == 0
+//@   call return#6: assert opts != nil && len(opts.OptionalDep) > 0 && opts.OptionalDep[0] == '!'
+//@   call return#5: assert opts != nil && !opts.Optional && len(opts.Default) == 0
+//@   ensures implies(err == nil && required, why != 0)
